@@ -415,7 +415,7 @@ func Protect(f func()) (site, msg string, panicked bool) {
 
 func init() {
 	// A runaway recursion must die quickly and visibly instead of eating 1 GB.
-	debug.SetMaxStack(64 << 20)
+	debug.SetMaxStack(32 << 20)
 	_ = runtime.NumCPU
 }
 
